@@ -383,6 +383,50 @@ def r06_10(run, model):
            witness="colors.gom: enum Color { Red, Green }; main.gom: match c { Red => 1, Green => 2 } compiles to `ret = 1`: in main.gom `Red` is a variable that matches everything")
 
 
+def r06_11(run, model):
+    run.rule("R06.11", "a type switch that rebinds its scrutinee under its own name (`switch x := x.(type)`) never contains another type switch on "
+                       "that name inside a case clause (there `x` has a struct type and `x.(type)` is not valid Go): where the back end builds "
+                       "such a switch, the statements of every case pass through a function that resolves nested switches on the rebound name")
+    GO = "crates/compiler/src/go/compile.rs"
+    f = model.fn("compile_match_branches", GO)
+    # functions that rewrite nested SwitchType statements on a given name
+    resolvers = set()
+    for g in model.fns(GO):
+        if g.body is None or g.name == f.name:
+            continue
+        t = S.norm_ws(run.facts.text(GO, g.body["sp"]))
+        if "SwitchType{" in t and "bind:Some(" in t and re.search(r"if\w+==\w+", t):
+            resolvers.add(g.name)
+    n = 0
+    for st in S.walk(f.body):
+        if st["k"] != "Struct" or not S.norm_ws(run.facts.text(GO, st["sp"])).startswith("goast::Stmt::SwitchType{"):
+            continue
+        txt = S.norm_ws(run.facts.text(GO, st["sp"]))
+        m = re.search(r"bind:Some\((\w+)\)", txt)
+        if not m:
+            continue
+        n += 1
+        # the enclosing match arm: pushes onto `cases`
+        par = S.Parents(f.body)
+        arm = next((a for a in par.ancestors(st) if a["k"] == "Arm"), None)
+        scope = arm["body"] if arm is not None else f.body
+        pushes = [c for c in S.walk(scope) if c["k"] == "MethodCall" and c["method"] == "push" and S.is_path(c["recv"], "cases")]
+        lets = {l["pat"]["name"]: l["init"] for l in S.find(scope, "Local") if l["pat"]["k"] == "PIdent" and l.get("init") is not None}
+        good = bool(pushes)
+        for pc in pushes:
+            blk = S.norm_ws(run.facts.text(GO, pc["sp"]))
+            used = set(S.idents(pc)) & set(lets)
+            via = any(any(True for _ in S.calls(lets[v], *resolvers)) for v in used) if resolvers else False
+            direct = any(True for _ in S.calls(pc, *resolvers)) if resolvers else False
+            if not (via or direct):
+                good = False
+        run.ob("R06.11", f"compile_match_branches|type switch #{n} rebinding {m.group(1)}: case bodies resolve nested switches on it", good,
+               site(GO, st["sp"]), f"resolver functions: {sorted(resolvers) or 'none'}; case blocks pushed: {len(pushes)}",
+               witness="match s { Circle(r) => match s { Circle(q) => r + q, _ => 0 }, .. } emits `switch s__0 := s__0.(type)` inside `case Circle:`, "
+                       "where s__0 is a struct: Go rejects it (s__0 (variable of type Circle) is not an interface)")
+    run.floor("type switches that rebind their scrutinee", n, 2)
+
+
 def run(run, model):
     mir = Mir(run.facts)
     run.try_rule(r06_1, model, mir)
@@ -394,6 +438,7 @@ def run(run, model):
     run.try_rule(r06_8, model)
     run.try_rule(r06_9, model)
     run.try_rule(r06_10, model)
+    run.try_rule(r06_11, model)
     from rules import c01
     run.try_rule(c01.r01_5, model, ("crates/compiler/src/compile_match.rs",))
     run.assume("tast_builder::build_pat and compile_struct_case read struct-pattern arguments positionally in declaration order (read and confirmed)")
